@@ -736,3 +736,33 @@ def build12(m):
     mr.prop = ['C01', 'C07']
     mr.loops = {0: Loop(invariant=['title_end <= line_end', 'line_end <= len(string)'], decreases='len(string) - line_end')}
     mr.body_types = {}
+
+
+def build13(m):
+    """Closing condition of a code fence (C03, C02) and the paragraph-interruption rule of lists (C14, C03)."""
+    def method(cls, name, c, static=False, classmethod_=False):
+        m.methods[(cls, name)] = c.key
+        c.is_static = static
+        c.is_classmethod = classmethod_
+        m.add(c)
+        return c
+    cf = m.contracts[MOD + ':CodeFence.read']
+    # spec 4.5: the closing fence is indented at most 3 spaces, starts with the opening fence (same
+    # character, at least as long) and is followed by nothing but blanks
+    cf.ghost_before = {'break': [
+        ('__assert__', ('diff < 4', ['C03', 'C02'])),
+        ('__assert__', ('stripped_line.startswith(some(CodeFence._open_info)[1])', ['C03', 'C02'])),
+        ('__assert__', ("stripped_line.rstrip().strip(some(CodeFence._open_info)[1][0]) == ''", ['C03', 'C02'])),
+    ]}
+    cf.prop = sorted(set(cf.prop) | {'C03', 'C02'})
+    method('List', 'check_interrupts_paragraph', Contract(
+        MOD + ':List.check_interrupts_paragraph', [('cls', cls_t('List')), ('lines', FW)], returns=BOOL,
+        requires=['CURSOR_OK(lines)', 'lines._index + 1 < len(lines.lines)'],
+        ensures=['lines._index == old(lines._index)',
+                 # spec 5.2: only a non-empty item that is a bullet or an ordered item numbered 1 may interrupt a paragraph
+                 ('implies(result, is_marker(lines.lines[lines._index + 1]))', ['C14', 'C03']),
+                 ("implies(result, g_content.strip() != '' and (not g_leader[0].isdigit() or g_leader == '1.' or g_leader == '1)'))",
+                  ['C14', 'C03'])],
+        ghost_init={'g_leader': (STR, "'-'"), 'g_content': (STR, "''")},
+        ghost_after={'_, _, leader, content = marker_tuple': [('g_leader', 'leader'), ('g_content', 'content')]},
+        pure=True, prop=['C01', 'C14', 'C03']), classmethod_=True)
